@@ -192,6 +192,42 @@ func Atomic(key interface{}, fn func()) {
 	fn()
 }
 
+// Len is len(ch) of a modelled channel: a visible, always enabled step whose
+// observation (channel identity and its send / receive counts) is folded into
+// the reader's chain.  Cap is the modelled capacity (immutable: no step).
+func Len[C any](ch C) int {
+	s := current
+	if s == nil || s.aborting {
+		return reflect.ValueOf(ch).Len()
+	}
+	c := s.chanFor(chanPtr(ch), reflect.ValueOf(ch).Cap())
+	if c == nil {
+		return 0
+	}
+	if c.reply {
+		s.replyBreach(c, "has its length observed")
+	}
+	o := &op{kind: opLocal, tag: 0x7006}
+	s.do(o)
+	s.bump(s.cur, c.hid.A, c.hid.B, c.sendSeq, c.recvSeq)
+	return len(c.buf)
+}
+
+func Cap[C any](ch C) int {
+	s := current
+	if s == nil || s.aborting {
+		return reflect.ValueOf(ch).Cap()
+	}
+	c := s.chanFor(chanPtr(ch), reflect.ValueOf(ch).Cap())
+	if c == nil {
+		return 0
+	}
+	if c.reply {
+		s.replyBreach(c, "has its capacity observed")
+	}
+	return c.cap
+}
+
 // newObj names a shared object independently of heap addresses: strings by
 // content, everything else by (creating or first touching goroutine, index).
 func (s *Sched) newObj(key interface{}) *Obj {
